@@ -12,6 +12,8 @@ def run(ck):
     ck.mc("WorkerLoop", "WorkerLoop.mc.cfg", timeout=3000)
     ck.mc("WorkerLoop", "WorkerLoop.mc2.cfg", timeout=3000)
     ck.mc("Retry", "Retry.mc.cfg", timeout=3000)     # NoStaleJobAtEnd: finished futures leave _jobs
+    # f_timeout's executor, shared through a weak reference and kept alive by pending futures only
+    ck.mc("SharedTimeout", "SharedTimeout.mc2.cfg" if quick else "SharedTimeout.mc.cfg", timeout=3000)
     tasks = []
     # placement sweep in the real code: the action lands at every step index of the handling of a submission
     for kind in KINDS:
@@ -92,6 +94,28 @@ def run(ck):
                            [["creator", 3 * n, 1000], ["exiter", 10000], ["creator", 10000]]):
                     tasks.append({"scen": "reclaim", "params": {"kind": kind, "kind2": kind2, "mode": "exitadd"},
                                   "strat": ["phases", ph], "gran": "line", "facts": {"kind": kind, "exitrace": True}})
+    # f_timeout(): the shared executor behind it lives exactly as long as calls are in progress or futures pending;
+    # clients arriving at the instant the previous executor is being reclaimed (SharedTimeout.tla)
+    for i in range(60 if quick else 1500):
+        n = rng.choice([1, 2, 2, 3, 3, 4])
+        t0 = rng.choice([0, 100])
+        cl = []
+        for _ in range(n):
+            at = t0 + rng.choice([0, 0, 100, 200, 200, 300])
+            T = rng.choice([100, 200, 300])
+            cl.append({"at": at, "T": T, "D": rng.choice([0, 0, at, at + 100, at + 100, at + T, at + T + 100])})
+        strat = ["random", rng.randrange(10 ** 9), 0.5] if i % 3 else ["pct", rng.randrange(10 ** 9), 3, 400]
+        tasks.append({"scen": "reclaim", "params": {"kind": "timeout", "mode": "ftshared", "clients": cl},
+                      "strat": strat, "gran": ("sync", "line", "line")[i % 3],
+                      "facts": {"kind": "timeout", "ftshared": True, "clients": n}})
+    # directed: the second client's call against every point of the first executor's last loop iteration
+    for n in range(1, 80, 3 if quick else 1):
+        cl = [{"at": 0, "T": 300, "D": 100}, {"at": 100, "T": 100, "D": 0}]
+        for ph in ([["cli1", 10000, 100], ["TimeoutExecutor-internal", n], ["cli2", 10000]],
+                   [["cli1", 10000, 100], ["cli2", n], ["TimeoutExecutor-internal", 10000], ["cli2", 10000]]):
+            tasks.append({"scen": "reclaim", "params": {"kind": "timeout", "mode": "ftshared", "clients": cl},
+                          "strat": ["phases", ph], "gran": "line",
+                          "facts": {"kind": "timeout", "ftshared": True, "directed": True}})
     ck.run_and_validate(tasks, TRACE, nontrivial=lambda t, r: True)
     ck.assumptions += ["CPython reference counting and gc.collect() decide when an object is freed",
                        "a real interpreter exit is represented by calling the library's exit hook",
